@@ -215,6 +215,82 @@ func runC02(tier string) int {
 			}
 		})
 	})
+	// the size dimension: chains of K leaves for every K up to a bound, in five operator patterns
+	maxLeaves := 40
+	if tier == "thorough" {
+		maxLeaves = 120
+	}
+	chainDone := r.Parallel(uint64(maxLeaves)*5*3, func(w int, idx uint64) {
+		pos := []int{0, 1, 5}[idx%3]
+		x := idx / 3
+		pat := int(x % 5)
+		k := int(x/5) + maxK + 1
+		leaf := func(i int) *model.Cond {
+			return &model.Cond{Kind: model.CLeaf, Leaf: model.LeafForm((i*7+pat)%model.NumLeafForms, i+1)}
+		}
+		bin := func(kind model.CKind, l, rr *model.Cond) *model.Cond { return &model.Cond{Kind: kind, L: l, R: rr} }
+		var cond *model.Cond
+		switch pat {
+		case 0, 1:
+			kind := model.CAnd
+			if pat == 1 {
+				kind = model.COr
+			}
+			cond = leaf(0)
+			for i := 1; i < k; i++ {
+				cond = bin(kind, cond, leaf(i))
+			}
+		case 2: // a && b || c && d || ...
+			for i := 0; i+1 < k; i += 2 {
+				pair := bin(model.CAnd, leaf(i), leaf(i+1))
+				if cond == nil {
+					cond = pair
+				} else {
+					cond = bin(model.COr, cond, pair)
+				}
+			}
+		case 3: // (a || b) && (c || d) && ...
+			for i := 0; i+1 < k; i += 2 {
+				pair := &model.Cond{Kind: model.CParen, L: bin(model.COr, leaf(i), leaf(i+1))}
+				if cond == nil {
+					cond = pair
+				} else {
+					cond = bin(model.CAnd, cond, pair)
+				}
+			}
+		default: // !(a && b) || !(c && d) || ...
+			for i := 0; i+1 < k; i += 2 {
+				pair := &model.Cond{Kind: model.CNot, L: &model.Cond{Kind: model.CParen, L: bin(model.CAnd, leaf(i), leaf(i+1))}}
+				if cond == nil {
+					cond = pair
+				} else {
+					cond = bin(model.COr, cond, pair)
+				}
+			}
+		}
+		sc := condProgram(cond, pos)
+		scripts := []*model.Script{sc}
+		src := model.Print(scripts)
+		r.Add("long_chains", 1)
+		for _, opt := range []bool{true, false} {
+			ok, rej, st, v, out := checkScripts(scripts, src, opt, machine.Lockstep, nil)
+			if !ok {
+				r.Report(harness.Violation{Sig: "C02:rejected:" + firstWords(rej, 6), Summary: fmt.Sprintf("well-formed condition of %d leaves rejected: %s", k, rej), Replay: map[string]interface{}{"source": src, "error": rej}})
+				continue
+			}
+			r.Add("evaluations", 1)
+			r.Add("nontrivial", 1)
+			addStats(r, st)
+			if v != nil {
+				r.Report(harness.Violation{Sig: violationSig("C02", v) + fmt.Sprintf(":chain-pattern%d", pat), Summary: fmt.Sprintf("chain of %d leaves, pattern %d, pos=%d optimize=%v: %s", k, pat, pos, opt, v),
+					Replay: condCase{K: k, Pos: pos, Source: src, Optimize: opt, Expected: v.A.String(), Actual: v.B.String(), Env: v.Sigma, Trace: v.Trace, Output: out}})
+			}
+		}
+	})
+	if !chainDone {
+		r.NotExhaustive("long chains not completed")
+	}
+	r.Set("long_chain_max_leaves", maxLeaves+maxK)
 	if doneAll {
 		completedK = maxK
 	} else {
@@ -227,7 +303,7 @@ func runC02(tier string) int {
 	r.Assume("the generator's own expression tree is the reference (no parsing on the oracle side); '!' > '&&' > '||', left to right, short-circuit",
 		"lockstep: each operand read (which flag/var/trainer, strict or not) is an observable event; the environment answers with the operand's value and each side applies its own relation")
 	return r.Finish(r.Get("evaluations"), r.Get("nontrivial"),
-		"every And/Or tree with k leaves x decorations (redundant parentheses / negations on any node, bounded count) x leaf-form assignments (all 30 forms exhaustively for k<=2, rotations beyond, shared-operand variants for k<=3) x 10 condition positions (if, if/else, elif positions, while, do...while, and branches with an empty body) x optimize on/off; each case explored in lockstep over all operand values; non-trivial = at least 2 leaves")
+		"every And/Or tree with k leaves x decorations (redundant parentheses / negations on any node, bounded count) x leaf-form assignments (all 30 forms exhaustively for k<=2, rotations beyond, shared-operand variants for k<=3) x 10 condition positions (if, if/else, elif positions, while, do...while, and branches with an empty body) x optimize on/off; plus chains of K leaves for every K up to the bound in the coverage in 5 operator patterns; each case explored in lockstep over all operand values; non-trivial = at least 2 leaves")
 }
 
 func sharedLeaf(form, i int) *model.Leaf {
